@@ -140,7 +140,7 @@ class C05(StreamProp):
     n_quick = 400
     n_thorough = 15000
     rule = ('each generated stream under: whole, 1-byte drip, random cuts, WouldBlock between segments, pre-read split, read_buffer_size in {0,1,2,5,6,13,14,15,64,4096,131072}; '
-            'every segmentation must equal the independent whole-stream decoder; distinct by trace')
+            'every segmentation must equal the independent whole-stream decoder; with an accepting write side all segmentations of the same bytes are also compared with each other (reads up to the first error); distinct by trace')
     level_text = 'read_frame under ANY read schedule equals a whole-stream reference decoder (theorem, unbounded); message-level corollary; read_buffer_size absent from the model: independence of it rests on the correspondence runs'
     level_note = 'Trusted: Coq kernel, Codec.v, correspondence over buffer sizes'
     def generate(self, tier, rng):
@@ -168,7 +168,47 @@ class C05(StreamProp):
                 for b in range(a, len(data)):
                     chunks = [c for c in (data[:a], data[a:b], data[b:]) if c]
                     out.append(gen_streams.reader_case('p%d' % k, 'c', chunks, 10, wb_between=(k % 2 == 0))); k += 1
-        return reid(out)
+        # half of the pure-read cases get a write side that accepts everything (the hypothesis `supply` of C05_messages): under it
+        # the results of successive reads must be the same for every segmentation of the same bytes - compared case against case
+        # by group_monitor below, with no model and no reference decoder in between
+        res = []
+        for line in out:
+            f = line.split(' ')
+            if f[0] == 'S' and f[13] in ('-', '') and all(o == 'r' for o in f[11].split(',')) and (sum(f[12].encode()) % 2 == 0 or len(f[12]) < 200):
+                f[13] = ','.join(['a:1000000'] * (2 * len(f[11].split(',')) + 4))
+                line = ' '.join(f)
+            res.append(line)
+        return reid(res)
+    def group_monitor(self, cases, traces):
+        groups = collections.defaultdict(list)
+        for cid, line in cases.items():
+            if not line.startswith('S '):
+                continue
+            c = ws.SCase(line)
+            if not c.ops or any(o != 'r' for o in c.ops) or not c.wrs or any(not w.startswith('a:1000000') for w in c.wrs):
+                continue
+            data = c.pre + b''.join(ws.unhx(r[2:]) for r in c.rds if r.startswith('d:'))
+            end = tuple(r for r in c.rds if not r.startswith('d:') and r != 'e:wb')
+            groups[(c.role, c.au, c.mms, c.mfs, data, end)].append(cid)
+        for key, ids in groups.items():
+            if len(ids) < 2:
+                continue
+            seqs = []
+            for cid in ids:
+                seq = []
+                for ot in ws.parse_trace(traces.get(cid, '').split(' ## ')[0]):
+                    if ot.res == 'err:io:wb':
+                        continue
+                    seq.append(rfc.trace_class(ot.res))
+                    if seq[-1].startswith('err') or seq[-1].startswith('panic'):
+                        break
+                seqs.append((seq, cid))
+            base, bid = max(seqs, key=lambda t: len(t[0]))
+            for seq, cid in seqs:
+                if seq != base[:len(seq)]:
+                    return ('segmentation-dependent: the same %d inbound bytes gave reads %r under one segmentation (%s) and %r under another' %
+                            (len(key[4]), [x[:24] for x in base[:6]], bid, [x[:24] for x in seq[:6]]), cid)
+        return None
 
 class C06(StreamProp):
     id = 'C06'
